@@ -60,6 +60,8 @@ type Ctx struct {
 	supp     int
 	perKey   map[string]int
 	inconcl  []string
+
+	sinceCkpt int // cases begun since the last stats record
 }
 
 // NewCtx opens the event log.
@@ -119,6 +121,10 @@ func (c *Ctx) Case(label string, f func(cc *Case)) {
 			return
 		}
 	}
+	if c.sinceCkpt >= 40 {
+		c.writeStats()
+	}
+	c.sinceCkpt++
 	c.write(&Rec{T: "begin", I: i, Label: label})
 	cc := &Case{ctx: c, I: i, Label: label, R: gen.New(c.Seed, c.Prop+"/"+label)}
 	c.mu.Lock()
@@ -233,10 +239,29 @@ func (cc *Case) WantSample() bool {
 
 // Finish writes the stats record and the done marker.
 func (c *Ctx) Finish() {
+	c.writeStats()
+	c.write(&Rec{T: "done", I: c.idx})
+	c.log.Close()
+}
+
+// Checkpoint writes the cumulative stats so far. The parent uses the LAST
+// stats record of a log, so the coverage observed before a process-fatal
+// crash (runtime deadlock, concurrent map write) is not lost with the process.
+func (c *Ctx) Checkpoint() {
+	if c.sinceCkpt > 0 {
+		c.writeStats()
+	}
+}
+
+func (c *Ctx) writeStats() {
+	c.mu.Lock()
 	st := &Stats{
-		Evaluations: c.evals, Counters: c.counters, Samples: c.samples,
+		Evaluations: c.evals, Counters: map[string]int64{}, Samples: append([]json.RawMessage(nil), c.samples...),
 		Violations: c.viols, Suppressed: c.supp, Inconclusive: c.inconcl,
 		Sets: map[string][]uint64{},
+	}
+	for k, v := range c.counters {
+		st.Counters[k] = v
 	}
 	for h := range c.distinct {
 		st.Distinct = append(st.Distinct, h)
@@ -250,7 +275,7 @@ func (c *Ctx) Finish() {
 		sort.Slice(l, func(i, j int) bool { return l[i] < l[j] })
 		st.Sets[name] = l
 	}
+	c.sinceCkpt = 0
+	c.mu.Unlock()
 	c.write(&Rec{T: "stats", Stats: st})
-	c.write(&Rec{T: "done", I: c.idx})
-	c.log.Close()
 }
